@@ -541,6 +541,12 @@ Step(st, op) ==
     \* conversion to GFA2 text: by design it gives the unnamed links and containments of the source an
     \* ID tag (C06, "edge identifiers"); which identifiers is not specified here -- the clauses that
     \* relate the observation to itself (registry, topology) go on
+    \* header.add(tag, value): as a header line with that one tag; a value the datatype of the
+    \* previous values cannot hold is refused at level >= 2 and nothing changes
+    [] op.k = "hadd" ->
+         IF op.id2 = "valid" THEN AddHeader(st, op.l)
+         ELSE IF ~\E j \in DOMAIN st.hdr : st.hdr[j].n = op.l.tagn[1] THEN {Unmodelled(st)}
+         ELSE IF st.vlevel >= 2 THEN {Fail(st, "Error")} ELSE {Unmodelled(st)}
     [] op.k = "tog2" -> {Unmodelled(st)}
     [] op.k = "stale" -> {Ok(st), Fail(st, "NotFoundError"), Fail(st, "Error")}
     [] op.k = "addc"  -> AddConnected(st, op.l)
